@@ -5,7 +5,7 @@
 # that the property's check FIRES. Prints one line per mutant and writes selftest/<ID>.txt. Exit 0 iff all
 # mutants marked "expect":"caught" were caught. Never touches /repo.
 ID=$1; TIER=${2:-quick}
-cd /verif || exit 2
+cd "$(dirname "$(readlink -f "$0")")" || exit 2
 dir=harness/c$(echo ${ID#C} | tr 'A-Z' 'a-z')
 mkdir -p selftest
 out=selftest/$ID.txt
@@ -22,7 +22,7 @@ run() { # name, expect, mut.sh args...
   echo "$line" | tee -a $out
   case "$expect/$verdict" in caught/caught*) ;; equivalent/MISSED) ;; caught/*) fail=1;; esac
 }
-for f in regress/$ID-*.fix.diff; do [ -f "$f" ] && run "revert:$(basename $f .fix.diff)" caught --rpatch /verif/$f; done
+for f in regress/$ID-*.fix.diff; do [ -f "$f" ] && run "revert:$(basename $f .fix.diff)" caught --rpatch "$(pwd)/$f"; done
 if [ -f $dir/mutants.json ]; then
   n=$(python3 -c "import json;print(len(json.load(open('$dir/mutants.json'))))")
   for i in $(seq 0 $((n-1))); do
